@@ -180,4 +180,48 @@ theorem window_within {n : Nat} (hn0 : 0 < n) (hn : n ≤ 256) (b : Nat)
 
 end Main
 
+/-! ## concrete groups for the examples of Props/C07Hist -/
+
+namespace Example
+
+/-- a `d/p` group at shard id `id` -/
+def grpAt (d p id : Nat) (pls : List Bytes) : Group :=
+  { d := d, p := p, base := BitVec.ofNat 32 (id * (d + p)), payloads := pls }
+
+/-- what `Decoder.new C d p` returns for an accepted ratio -/
+def fresh (C : CodecNew) (d p : Nat) : Decoder :=
+  { d := d, p := p, n := d + p, paws := pawsOf (d + p), newest := 0, shouldTune := false,
+    tune := Tune.init, sets := [], codec := C d p }
+
+def a0 := grpAt 2 1 0 [[1, 2, 3], [4]]
+def a3 := grpAt 2 1 3 [[7], [8, 9]]
+def a4 := grpAt 2 1 4 [[7], [8, 9]]
+def b0 := grpAt 1 1 0 [[5, 6]]
+def c0 := grpAt 2 2 0 [[1], [2, 3]]
+
+theorem a0_wf : a0.WF := ⟨by decide, by decide, by decide, by decide, by decide, by decide, by decide⟩
+theorem a3_wf : a3.WF := ⟨by decide, by decide, by decide, by decide, by decide, by decide, by decide⟩
+theorem a4_wf : a4.WF := ⟨by decide, by decide, by decide, by decide, by decide, by decide, by decide⟩
+theorem b0_wf : b0.WF := ⟨by decide, by decide, by decide, by decide, by decide, by decide, by decide⟩
+theorem c0_wf : c0.WF := ⟨by decide, by decide, by decide, by decide, by decide, by decide, by decide⟩
+
+def fam : FecDec.Family := fun id => if id = 0 then some a0 else if id = 3 then some a3 else none
+
+theorem fam0 : fam (a0.base / u32 a0.n) = some a0 := by
+  show (if a0.base / u32 a0.n = 0 then some a0 else _) = some a0
+  rw [if_pos (by decide)]
+
+theorem fam3 : fam (a3.base / u32 a3.n) = some a3 := by
+  show (if a3.base / u32 a3.n = 0 then some a0 else if a3.base / u32 a3.n = 3 then some a3 else none)
+    = some a3
+  rw [if_neg (by decide), if_pos (by decide)]
+
+theorem gen0 (j : Nat) (hj : j < 3) : FecDec.GenuinePkt rsNew fam 2 1 (a0.packet rsNew j) :=
+  ⟨a0, j, fam0, a0_wf, rfl, rfl, hj, rfl⟩
+
+theorem gen3 (j : Nat) (hj : j < 3) : FecDec.GenuinePkt rsNew fam 2 1 (a3.packet rsNew j) :=
+  ⟨a3, j, fam3, a3_wf, rfl, rfl, hj, rfl⟩
+
+end Example
+
 end KcpVerif.Lemmas.FecHist
